@@ -152,6 +152,7 @@ type Engine struct {
 	deadPaths int
 	decisions int
 	harness  string
+	entryPkg *ssa.Package
 	splitN, splitK int
 	threadMode bool
 	funcs    map[string]bool
@@ -501,8 +502,29 @@ type RunResult struct {
 }
 
 // Run explores all paths of fn(args...) from the initial state.
+// modelTab: library functions replaced by a model written in Go in the harness package of the running job
+// (when that package defines it). The models are part of the claim (evidence: stubs).
+var modelTab = map[string]string{
+	"gopkg.in/yaml.v2.Marshal":   "verifModelYAMLMarshal",
+	"gopkg.in/yaml.v2.Unmarshal": "verifModelYAMLUnmarshal",
+	"io/ioutil.ReadFile":         "verifModelReadFile",
+	"io/ioutil.WriteFile":        "verifModelWriteFile",
+}
+
+func (e *Engine) modelFor(fn *ssa.Function) *ssa.Function {
+	if e.entryPkg == nil || fn.Pkg == nil {
+		return nil
+	}
+	m, ok := modelTab[fn.String()]
+	if !ok {
+		return nil
+	}
+	return e.entryPkg.Func(m)
+}
+
 func (e *Engine) Run(name string, fn *ssa.Function, args []Val, init *State) {
 	e.harness = name
+	e.entryPkg = fn.Pkg
 	st := init
 	if st == nil {
 		st = e.newState()
@@ -1046,6 +1068,11 @@ func (e *Engine) callFunc(st *State, th *Thread, fv FuncV, args []Val, retTo ssa
 			fr.dirtyResult = true
 			return
 		}
+	}
+	if m := e.modelFor(fv.Fn); m != nil {
+		e.stubsHit["model:"+fv.Fn.String()+" -> "+m.Name()]++
+		e.pushFrame(st, th, m, args, nil, retTo)
+		return
 	}
 	if v, ok := e.intrinsic(st, th, fv.Fn, args); ok {
 		if len(th.frames) > 0 {
